@@ -39,7 +39,6 @@ class LemmaCtx:
         engine.top_frame = fid
         engine.top_spec = None
         engine.current_fid = spec.fid
-        engine.register_class_invariants()
         engine.global_inline |= {'AlignedPair.querySiteIdSelector', 'AlignedPair.referenceSiteIdSelector', 'AlignedPair.distanceSelector'}
 
     def fresh(self, kind, name='x'):
